@@ -167,6 +167,17 @@ func main() {
 			}
 		}
 		os.Exit(worst)
+	case "maporder":
+		p, err := loadEnv()
+		if err != nil {
+			os.Exit(2)
+		}
+		n, leaks, _ := mapOrderLeaks(p, os.Args[2:]...)
+		for _, l := range leaks {
+			fmt.Println(l)
+		}
+		fmt.Println("functions with a map range checked:", n)
+		return
 	case "fns":
 		p, err := loadEnv()
 		if err != nil {
